@@ -72,6 +72,10 @@ def cases(ctx):
             yield Case(f'sw_decode {ty}/{nh(net)} {ver} {sh(s)}', 'ms', nontrivial=net != 'testnet', tag='recreate',
                        spec=lambda ans, prog=prog: (f's:raw ok {hx(prog)}', ans))
             yield Case(f'is_bech32 {sh(s)}', 'ms', nontrivial=True, tag='predicate', spec=lambda ans: ('s:raw ok 1', ans))
+        onet = rng.choice([n for n in NETS if hrp(n) != hrp(net)])
+        yield Case(f'sw_decode {ty}/{nh(onet)} {ver} {sh(exp)}', 'ms', nontrivial=True, tag='reject-same-string-other-net', spec=lambda ans: ('s:raw err', ans))
+        oty = rng.choice([t for t in KIND if KIND[t][0] != ver])
+        yield Case(f'sw_decode {oty}/{nh(net)} {KIND[oty][0]} {sh(exp)}', 'ms', nontrivial=True, tag='reject-same-string-other-class', spec=lambda ans: ('s:raw err', ans))
         good.append((ty, net, ver, prog, exp))
     for ty, net, ver, prog, s in good[:ctx.n(60, 3000)]:
         muts = []
